@@ -3,7 +3,7 @@ from eolib.data.eo_writer import EoWriter
 from eolib.data.eo_reader import EoReader
 from eolib.protocol.serialization_error import SerializationError
 from vh_gentree import gen_unit, gen_value
-from vh_refsem import collect_kwargs, pascal, build_value
+from vh_refsem import collect_kwargs, pascal, build_value, same_fields
 
 
 def no_assign(obj, name, value, tag):
@@ -104,6 +104,15 @@ def immutable(types, desc, cfg):
             while len(v) > 0:
                 v.pop()
     check(ser(cls, obj) == a, "emptying the caller's list does not change the object")
+    # public methods leave the instance as it was (fields and byte_size)
+    same_fields(types, desc["instrs"], obj, tree, desc["name"] + " after serialize")
+    check(obj.byte_size == 0, "serialize leaves byte_size of a constructed instance at 0")
+    if desc["packet"] is not None:
+        w9 = EoWriter()
+        obj.write(w9)
+        check(w9.to_bytearray() == a, "Packet.write emits the same bytes")
+        check(obj.byte_size == 0, "Packet.write leaves byte_size unchanged")
+        same_fields(types, desc["instrs"], obj, tree, desc["name"] + " after write")
     frozen(types, desc["instrs"], obj, tree, desc["name"])
     check(ser(cls, obj) == a, "failed assignments leave the object unchanged")
     # deserialized instances behave the same
@@ -118,8 +127,14 @@ def immutable(types, desc, cfg):
         return
     # a deserialized instance may hold values the wire cannot carry (e.g. 254 decoded from a 0xFF byte of an
     # ambiguous layout): then serialize refuses it - both times alike
+    size0 = back.byte_size
     b1 = ser_outcome(cls, back)
     b2 = ser_outcome(cls, back)
+    check(back.byte_size == size0, "serialize leaves byte_size of a deserialized instance unchanged")
+    if desc["packet"] is not None and b1[0] == "bytes":
+        w8 = EoWriter()
+        back.write(w8)
+        check(back.byte_size == size0, "Packet.write leaves byte_size of a deserialized instance unchanged")
     check(b1[0] == b2[0], "serializing a deserialized instance twice ends the same way")
     if b1[0] == "bytes" and b2[0] == "bytes":
         check(b1[1] == b2[1], "serializing a deserialized instance twice yields identical bytes")
